@@ -22,7 +22,11 @@ RULE = ("cases = (decimal_places 0..9, line ending, axis labels (default, relabe
         "set_distance_mode; nested absolute_mode()/relative_mode() contexts "
         "whose body may raise (an Exception or a BaseException); interleaved "
         "non-motion calls (extrusion/feed mode, plane, units, comments) and "
-        "other builders with a different configuration created meanwhile; the "
+        "other builders with a different configuration created meanwhile; an "
+        "axis relabelled in the middle of the history (rename_axis / "
+        "format.set_axis_label); the conversion helpers to_absolute / "
+        "to_absolute_list / to_distance_mode compared with their documented "
+        "formula and required to change nothing; the "
         "eight tracer shapes built valid from the "
         "current position); non-trivial = history with a relative move after "
         "a G92/home/probe, or a mode context, or a tracer op; distinct by SHA-1")
@@ -89,6 +93,74 @@ def make_checker(s, ctx_classes):
     return check
 
 
+def make_before(s, classes):
+    """Ops that emit nothing, carried out here because they need the session:
+    relabelling an axis mid-history (the interpreter switches to the new
+    label for the lines emitted from now on) and the conversion helpers."""
+    POOL = ["A", "B", "C", "U", "V", "W", "X", "Y", "Z"]
+
+    def before(op):
+        g = s.g
+        if op["op"] == "relabel":
+            s.poll()
+            ax = op["axis"].upper()
+            used = {lab for a, lab in s.axis_labels.items() if a != ax}
+            # a label another axis is using would make the program ambiguous:
+            # take the next free one (resolved at execution time)
+            lab = next(l for l in [op["label"]] + POOL if l.strip().upper() not in used)
+            try:
+                if op["via"] == "rename_axis":
+                    g.rename_axis(op["axis"], lab)
+                else:
+                    g.format.set_axis_label(op["axis"], lab)
+            except Exception as e:
+                raise Violation(f"renaming axis {op['axis']} to {lab!r} raised "
+                                f"{type(e).__name__}: {e}")
+            if s.new_bytes():
+                raise Violation(f"renaming an axis emitted {s.new_bytes()!r}")
+            s.axis_labels[ax] = lab.strip().upper()
+            s.machine.labels = {l: a for a, l in s.axis_labels.items()}
+            classes.add("relabelled_mid_history")
+        elif op["op"] == "query":
+            from gscrib.geometry import Point
+            pos = tuple(g.position)
+            org = [0.0 if c is None else float(c) for c in pos]
+            rel = g.distance_mode.is_relative
+            pts = [Point(p.get("x"), p.get("y"), p.get("z")) for p in op["pts"]]
+            exp = []
+            cur = list(org)
+            try:
+                if op["fn"] == "to_absolute_list":
+                    got = [tuple(q) for q in g.to_absolute_list(pts)]
+                    for q in pts:
+                        cur = [c + (0.0 if v is None else v) if rel else (c if v is None else v)
+                               for c, v in zip(cur, q)]
+                        exp.append(tuple(cur))
+                elif op["fn"] == "to_absolute":
+                    got = [tuple(g.to_absolute(pts[0]))]
+                    exp = [tuple(c + (0.0 if v is None else v) if rel else (c if v is None else v)
+                                 for c, v in zip(org, pts[0]))]
+                else:
+                    got = [tuple(g.to_distance_mode(pts[0]))]
+                    tgt = [0.0 if v is None else v for v in pts[0]]
+                    exp = [tuple(t - c if rel else t for t, c in zip(tgt, org))]
+            except Exception as e:
+                raise Violation(f"{op['fn']}({op['pts']!r}) raised {type(e).__name__}: {e}")
+            for gq, eq in zip(got, exp):
+                for a, b in zip(gq, eq):
+                    if a is None or abs(float(a) - b) > 8 * ulp(max(1.0, abs(b), *map(abs, org))) * len(pts):
+                        raise Violation(f"{op['fn']}({op['pts']!r}) at position {pos} in "
+                                        f"{'relative' if rel else 'absolute'} mode = {got}, "
+                                        f"expected {exp}")
+            if len(got) != len(exp):
+                raise Violation(f"{op['fn']} returned {len(got)} points for {len(exp)}")
+            if s.new_bytes() or tuple(g.position) != pos:
+                raise Violation(f"{op['fn']} changed the builder (position {pos} -> "
+                                f"{tuple(g.position)}, output {s.new_bytes()!r})")
+            classes.add("conversion_helper")
+    return before
+
+
 def classify(ops):
     cl = set()
     seen_reset = False
@@ -138,7 +210,7 @@ def run_case(case, classes=None):
     classes = set() if classes is None else classes
     s = Session(dp=case["dp"], eol=case["eol"], labels=case.get("labels"))
     check = make_checker(s, classes)
-    hist.run_ops(s.g, case["ops"], check)
+    hist.run_ops(s.g, case["ops"], check, make_before(s, classes))
     return classes
 
 
